@@ -401,6 +401,9 @@ func Monitor(spec *Spec, tr *Trace) []Finding {
 		}
 
 		// ---- DepthFirstSort (C16) -------------------------------------------------------------
+		if tr.PreSortBad != "" && gi == 0 {
+			add("C16", "%s", tr.PreSortBad)
+		}
 		if ng == 1 && spec.PreTasks == 0 {
 			if tr.SortErr != "" {
 				add("C16", "DepthFirstSort of an acyclic graph failed: %s", tr.SortErr)
